@@ -25,6 +25,7 @@ func init() {
 			{Name: "no Reset after Get", File: "proxy/gzip/gzip_handler.go", Old: "\t\t\tgrw.gzipWriter.Reset(grw.ResponseWriter)\n", New: "", Expect: "C17.T2"},
 			{Name: "use after Put", File: "proxy/gzip/gzip_handler.go", Old: "\t\tgrw.gzipWriter.Close()\n\t\tgzipWriterPool.Put(grw.gzipWriter)", New: "\t\tgzipWriterPool.Put(grw.gzipWriter)\n\t\tgrw.gzipWriter.Close()", Expect: "C17.T2"},
 			{Name: "Close not deferred in the handler", File: "proxy/gzip/gzip_handler.go", Old: "\t\t\tdefer gzWriter.Close()\n\t\t\th.ServeHTTP(gzWriter, r)", New: "\t\t\th.ServeHTTP(gzWriter, r)\n\t\t\tgzWriter.Close()", Expect: "C17.T2"},
+			{Name: "Close called early on a write error", File: "proxy/gzip/gzip_handler.go", Old: "\treturn grw.writer.Write(b)\n}", New: "\tn, err := grw.writer.Write(b)\n\tif err != nil {\n\t\tgrw.Close()\n\t}\n\treturn n, err\n}", Expect: "C17."},
 			{Name: "writer decided twice", File: "proxy/gzip/gzip_handler.go", Old: "func (grw *GzipResponseWriter) WriteHeader(code int) {\n\tif grw.writer == nil {", New: "func (grw *GzipResponseWriter) WriteHeader(code int) {\n\tif grw.writer == nil || code >= 500 {", Expect: "C17.T1"},
 			{Name: "Write uses the undecided writer", File: "proxy/gzip/gzip_handler.go", Old: "\t\tgrw.WriteHeader(http.StatusOK)\n\t}\n\treturn grw.writer.Write(b)", New: "\t}\n\treturn grw.writer.Write(b)", Expect: "C17.T1"},
 			{Name: "Write drops the last byte", File: "proxy/gzip/gzip_handler.go", Old: "\treturn grw.writer.Write(b)", New: "\treturn grw.writer.Write(b[:len(b)-1])", Expect: "C17.W1"},
@@ -405,6 +406,7 @@ func runC17(c *Ctx) {
 			}
 		}
 	})
+	runC17T3(c)
 	c.check("C17.V1", "gzip.NewGzipHandler$1|Vary: Accept-Encoding on every path", handler.Pos(), okVary, "the response varies with Accept-Encoding whether or not it is compressed; the header must be added before branching")
 }
 
